@@ -37,9 +37,14 @@ TCall ==
     /\ pend' = With(pend, Trace[l].id, [start |-> Trace[l].start, prev |-> Trace[l].prev])
     /\ UNCHANGED <<vars, done, runAns>>
 
-\* linearization point of a pending call (silent)
+\* linearization point of a pending call (silent).  Linearization points are
+\* postponed as far as possible without loss of generality: a call takes
+\* effect only when the next event is the Return of a call that has not taken
+\* effect yet (then some sequence of pending calls ending with that one is
+\* linearized).
 Lin ==
     /\ l' = l
+    /\ l <= Len(Trace) /\ Trace[l].event = "Return" /\ Trace[l].id \notin DOMAIN done
     /\ \E id \in DOMAIN pend :
           LET s == pend[id].start
               p == pend[id].prev
@@ -59,6 +64,12 @@ TReturn ==
 
 TNext == TReset \/ TCall \/ Lin \/ TReturn
 TSpec == TInit /\ [][TNext]_tvars
+
+\* Two search states that agree on the remembered request, the cursor and the
+\* pending / effected calls have the same future: the ghost variables (trues,
+\* last, calls) are hidden from the fingerprint so that different orders
+\* reaching the same point are explored once.
+TView == <<curStart, curPrev, l, pend, done, runAns>>
 
 Hwm == HwmConstraint(l)
 Accepted == HwmAccepted
